@@ -453,9 +453,10 @@ class ConditionalGaussianPDF:
         log_expectation_constant = -0.5 * (
             quadratic_integral + (self.ln_det_Sigma + self.Dy * jnp.log(2.0 * jnp.pi))
         )
+        Lambda = self.Lambda  # bound now: the returned function is a value, not a view of self
         log_expectation_y = (
             lambda y: -0.5
-            * jnp.einsum("ab,ab -> a", y, jnp.einsum("abc,ac->ab", self.Lambda, y))
+            * jnp.einsum("ab,ab -> a", y, jnp.einsum("abc,ac->ab", Lambda, y))
             + jnp.einsum("ab,ab->a", y, linear_integral)
             + log_expectation_constant
         )
@@ -1251,9 +1252,10 @@ class ConditionalIdentityGaussianPDF(ConditionalGaussianPDF):
         log_expectation_constant = -0.5 * (
             quadratic_integral + (self.ln_det_Sigma + self.Dy * jnp.log(2.0 * jnp.pi))
         )
+        Lambda = self.Lambda  # bound now: the returned function is a value, not a view of self
         log_expectation_y = (
             lambda y: -0.5
-            * jnp.einsum("ab,ab -> a", y, jnp.einsum("abc,ac->ab", self.Lambda, y))
+            * jnp.einsum("ab,ab -> a", y, jnp.einsum("abc,ac->ab", Lambda, y))
             + jnp.einsum("ab,ab->a", y, linear_integral)
             + log_expectation_constant
         )
@@ -1510,9 +1512,10 @@ class ConditionalIdentityDiagGaussianPDF(ConditionalIdentityGaussianPDF):
         log_expectation_constant = -0.5 * (
             quadratic_integral + (self.ln_det_Sigma + self.Dy * jnp.log(2.0 * jnp.pi))
         )
+        Lambda = self.Lambda  # bound now: the returned function is a value, not a view of self
         log_expectation_y = (
             lambda y: -0.5
-            * jnp.einsum("ab,ab -> a", y, jnp.einsum("abc,ac->ab", self.Lambda, y))
+            * jnp.einsum("ab,ab -> a", y, jnp.einsum("abc,ac->ab", Lambda, y))
             + jnp.einsum("ab,ab->a", y, linear_integral)
             + log_expectation_constant
         )
